@@ -122,14 +122,14 @@ func execRTJ(in string) string {
 	if (dverr == nil) != wantOK || (dverr == nil && strings.Join(obsGetters(dv), " ") != strings.Join(out[2:], " ")) {
 		gate = "gate=0"
 	}
-	return strings.Join(append(out, cross), " ") + " ## orig=" + strings.Join(orig, ",") + " " + ev + " " + gate
+	return strings.Join(append(out, cross), " ") + " ## orig=" + strings.Join(orig, "|") + " " + ev + " " + gate
 }
 
 func genC12(tier string, seed uint64, emit func(string)) {
 	r := &rng{s: seed}
 	n := 1200
 	if tier == "thorough" {
-		n = 120000
+		n = 12000
 	}
 	texts := []string{"plain", "é世界", "quote\"back\\slash", "ctl\x01\x1f\ttab\nnl", "<html>&amp;", "  ", "\\u0026 literal", "emoji😀", "/slash/", "\x7f"}
 	for kind := 1; kind <= 2; kind++ {
@@ -141,8 +141,10 @@ func genC12(tier string, seed uint64, emit func(string)) {
 			if r.intn(3) == 0 && strings.HasPrefix(c[tSwc], "[") && c[tSwc] != "[]" {
 				comps := strings.Split(c[tSwc][1:len(c[tSwc])-1], ";")
 				fl := strings.Split(comps[0], ",")
-				fl[0] = hx(texts[r.intn(len(texts))])
-				fl[4] = hx(texts[r.intn(len(texts))])
+				withEmpty := append([]string{"", ""}, texts...)
+				fl[0] = hx(withEmpty[r.intn(len(withEmpty))])
+				fl[2] = hx(withEmpty[r.intn(len(withEmpty))])
+				fl[4] = hx(withEmpty[r.intn(len(withEmpty))])
 				comps[0] = strings.Join(fl, ",")
 				c[tSwc] = "[" + strings.Join(comps, ";") + "]"
 			}
